@@ -65,6 +65,8 @@ def generate(rng, tier, seed):
         if not any(st.op == "inline" for sts in base.graphs.values() for st in sts):
             continue
         cases += variants(rng, base)
+    from .witness import f4_case
+    cases.append(f4_case(f"c09_{seed}_witnessF4"))
     return cases
 
 
@@ -85,6 +87,9 @@ def compare_all(case, run, mr):
 
 
 def check(case, tr):
+    if case.meta.get("witness"):
+        from .witness import check_witness
+        return check_witness(case, tr)
     res = Result(signature=case.text().split("\n", 1)[1])
     if tr.build_error:
         res.violations.append(Violation(f"valid program rejected at build: {tr.build_error}"))
